@@ -12,13 +12,16 @@ package fischlin
 
 // The Fischlin proof-of-work value covers the FIRST b BITS of the random-oracle digest of (common hash, repetition
 // index, challenge, response): b/8 whole digest bytes followed by the low (b mod 8) bits of the next digest byte
-// (the returned slice has b/8+1 bytes; nothing of the b bits is dropped, nothing beyond them is kept).
+// (the returned slice has b/8+1 bytes; nothing of the b bits is dropped, nothing beyond them is kept). The digest is
+// the random oracle of exactly (common hash, 8 zero bytes followed by the little-endian repetition index, challenge,
+// response): every repetition has its own proof-of-work instance.
 //@ func hash
 //@   property C08
 //@   ghostvar H []byte
 //@   ensures err == nil ==> len(result) == b/8 + 1
 //@   ensures err == nil ==> forall j int :: 0 <= j && j < b/8 ==> result[j] == H[j]
 //@   ensures err == nil ==> result[b/8] == and8(H[b/8], pow2(b % 8) - 1)
+//@   ensures err == nil ==> H == res(hashing.Hash(randomOracle, commonH, binary.LittleEndian.AppendUint64(zerobytes(8), i), challenge, serializedResponse), 0)
 //@   ghostset after "h, err := hashing.Hash(randomOracle": H = h
 
 // isAllZeros is true exactly when every byte is zero (for any length).
